@@ -354,6 +354,9 @@ structure HidiCfg where
 /-- Go integer division panics on a zero divisor -/
 def goDiv (a b : Int) : Outcome Int := if b = 0 then .panic else .ok (Int.tdiv a b)
 
+/-- two's-complement wrap-around of a Go `int64` product -/
+def wrap64 (x : Int) : Int := (x + 9223372036854775808) % 18446744073709551616 - 9223372036854775808
+
 def loadHidi (decoded : Outcome HidiRaw) (recovers : Bool) : Outcome HidiCfg :=
   match decoded with
   | .panic => if recovers then .err else .panic
@@ -361,7 +364,7 @@ def loadHidi (decoded : Outcome HidiRaw) (recovers : Bool) : Outcome HidiCfg :=
   | .ok r =>
     if r.poolRate ≤ 0 ∨ r.discoveryRate ≤ 0 then .err else
     match goDiv 1000000000 r.poolRate, goDiv 1000000000 r.discoveryRate with
-    | .ok a, .ok b => .ok ⟨a, b, 1000000 * r.stabilization⟩
+    | .ok a, .ok b => .ok ⟨a, b, wrap64 (1000000 * r.stabilization)⟩   -- `time.Duration(ms) * time.Millisecond`
     | .panic, _ => .panic
     | _, .panic => .panic
     | _, _ => .err
